@@ -371,6 +371,13 @@ var parkedStates = map[string]bool{
 // (mutex / rwmutex / waitgroup) and at least one of them on the pool's RWMutex. A lock can only be released by a goroutine that
 // is inside the pool (all lock/unlock pairs are within pool methods), so nobody can ever wake them: blocked forever.
 // Goroutines of previously abandoned pools are ignored; the idle Start loop (select) is ignored.
+//
+// Extension (large-scale histories): a goroutine blocked in a channel SEND that is executed directly by a function of pkg/txpool
+// (first frame of the stack is a txpool function, e.g. a semaphore or result channel local to a promotion pass) also counts as
+// parked: the pool hands none of its channels to its collaborators (Subscribe goes through pkg/event, whose sends have a pkg/event
+// frame on top and therefore do NOT count), so only another goroutine inside the pool could receive, and all of those are parked.
+// Channel RECEIVES never count (a timer could serve them). With a channel send among the parked ones the RWMutex requirement is
+// replaced by "a send inside the pool or the RWMutex".
 func deadlockEvidence(dump string) bool {
 	abandonedMu.Lock()
 	defer abandonedMu.Unlock()
@@ -380,6 +387,11 @@ func deadlockEvidence(dump string) bool {
 			continue
 		}
 		if g.state == "select" && strings.Contains(g.stack, "txpool.(*TransactionPool).Start") && !strings.Contains(g.stack, ".reorg") {
+			continue
+		}
+		if strings.HasPrefix(g.state, "chan send") && sendInsidePool(g.stack) {
+			n++
+			onRW = true
 			continue
 		}
 		if !parkedStates[g.state] {
@@ -393,15 +405,36 @@ func deadlockEvidence(dump string) bool {
 	return n > 0 && onRW
 }
 
+// sendInsidePool: the blocked channel operation is executed by a pkg/txpool function itself (first frame below the header).
+func sendInsidePool(stack string) bool {
+	lines := strings.SplitN(stack, "\n", 3)
+	return len(lines) >= 2 && strings.Contains(lines[1], "/pkg/txpool.")
+}
+
 func relevantStacks(dump string) string {
 	abandonedMu.Lock()
 	defer abandonedMu.Unlock()
-	var b strings.Builder
+	// goroutines in the rarer states first (with dozens of goroutines queued on the same lock the interesting one - e.g. the
+	// spawning loop of a promotion pass blocked on a channel - must not fall off the end), a census in front
+	var gs []gInfo
+	census := map[string]int{}
 	for _, g := range parseDump(dump) {
 		if g.inPool && !abandonedGIDs[g.id] {
-			b.WriteString(g.stack)
-			b.WriteString("\n\n")
+			gs = append(gs, g)
+			census[g.state]++
 		}
+	}
+	sort.SliceStable(gs, func(i, j int) bool { return census[gs[i].state] < census[gs[j].state] })
+	var states []string
+	for st, n := range census {
+		states = append(states, fmt.Sprintf("%d x [%s]", n, st))
+	}
+	sort.Strings(states)
+	var b strings.Builder
+	fmt.Fprintf(&b, "%d goroutines inside pkg/txpool: %s\n\n", len(gs), strings.Join(states, ", "))
+	for _, g := range gs {
+		b.WriteString(g.stack)
+		b.WriteString("\n\n")
 	}
 	s := b.String()
 	if len(s) > 6000 {
